@@ -8,13 +8,14 @@ MC:   AgentQueue.tla (resolutionShardFromHashLocked, the shared body of the Shar
       Deliberately wrong designs (too coarse a resolution for the ring, no `late` branch,
       rounding up, rounding before the clamp, jump-ahead not by whole rings) must break it.
 S->I: the same specification instantiated with the code's real constants (128 / 3 / 120, 1.3 s):
-      behaviours explored exhaustively over a boundary alphabet (3 operations) and long simulated
-      ones are replayed on two real Agents each (empty mapping cache + canonical tags vs. full
+      behaviours explored exhaustively over a boundary alphabet (start lag x clock step x flush|event x
+      event x flush|consume|shutdown) and long simulated ones are replayed on two real Agents each (empty mapping cache + canonical tags vs. full
       mapping cache + permuted, aliased tags) through Agent.Map / Agent.ApplyMetric / the Add* API /
       Shard.flushBuckets / Agent.goFlushIteration / ShutdownFlusher / FlushAllData; CurrentTime,
       SendTime, channel and the rows of SuperQueue are compared with the specification after
       every step, buckets are read from BucketsToPreprocess."""
 import json
+import os
 import random
 import re
 from vlib import Infra
@@ -80,11 +81,14 @@ def run(ctx):
              dict(small, NShards=2, Ticks=[0, 1, 2, 9], MaxOps=4, MaxEvents=2))]
     if th:
         runs = [("AgentQueue_mc_big.cfg", "one shard, ring 16, resolutions 1/2/4",
-                 {"QLen": 16, "FutureSlots": 1, "Spread": 8, "resolutions": [1, 2, 4], "Ticks": [0, 1, 2, 8, 17], "MaxOps": 7, "MaxEvents": 2}),
+                 {"QLen": 16, "FutureSlots": 1, "Spread": 8, "resolutions": [1, 2, 4], "Ticks": [0, 1, 2, 8, 17], "MaxOps": 6, "MaxEvents": 2}),
                 ("AgentQueue_mc_back.cfg", "one shard, ring 8, clock also steps back and over two rings",
                  dict(small, Ticks=[-1, 0, 1, 2, 9, 19], MaxOps=6, MaxEvents=2)),
                 ("AgentQueue_mc2_big.cfg", "two shards with secondary shards, ApplyMetric + API, ring 8",
                  dict(small, NShards=2, Ticks=[0, 1, 2, 9], MaxOps=5, MaxEvents=2))]
+    selftest = os.environ.get("VERIF_SELFTEST") == "1"   # mutant runs: the model-only stages do not depend on the code
+    if selftest:
+        runs = []
     for i, (cfg, name, consts) in enumerate(runs):
         mc = ctx.tlc("AgentQueueMC", cfg, timeout=3000 if th else 900, coverage=(th and i == 1), name=name, constants=consts, keep_beh=False)
         ctx.require_model_ok(mc, "AgentQueue invariants (%s)" % name)
@@ -96,6 +100,8 @@ def run(ctx):
                 ("ceil", ("invariant:Rounded", "invariant:NotEarly")), ("roundfirst", ("invariant:Rounded",))]
     for v, exp in (variants if th else variants[:2]):
         bad.append(("AgentQueue_mc.cfg", v, exp))
+    if selftest:
+        bad = []
     broken = {}
     for cfg, variant, expect in bad:
         files = None
@@ -110,23 +116,31 @@ def run(ctx):
         broken[variant or "resolution_too_coarse_for_ring"] = r.violated
     ctx.ev.set("wrong_designs_violate", broken)
     # 3. behaviours with the real constants for the driver
-    beh = ctx.tlc("AgentQueueMC", "AgentQueue_beh.cfg", timeout=1800, name="behaviour export, real constants, boundary alphabet",
-                  constants={"QLen": 128, "FutureSlots": 3, "Spread": 120, "NShards": 2, "MaxOps": 3})
+    beh = ctx.tlc("AgentQueueMC", "AgentQueue_beh_big.cfg" if th else "AgentQueue_beh.cfg", timeout=2400,
+                  name="behaviour export, real constants, boundary alphabet",
+                  constants={"QLen": 128, "FutureSlots": 3, "Spread": 120, "NShards": 2, "T0": 86400057,
+                             "shape": "start lag x tick x flush|event x event x flush|consume|stop+FlushAllData"})
     ctx.require_model_ok(beh, "behaviour export")
-    full = [b for b in beh.behaviours if len(b) == 3]
+    full = list(beh.behaviours)   # only complete behaviours are printed (ExportBeh)
     rnd.shuffle(full)
-    # prefer behaviours that place an event (two thirds), then the rest
-    ev = [b for b in full if any(s["a"] == "Event" for s in b)]
-    other = [b for b in full if not any(s["a"] == "Event" for s in b)]
-    limit = 20000 if th else 3000
-    take = ev[: limit * 3 // 4] + other[: limit // 4]
+    # every shape gets its share: group by the sequence of actions, take round-robin
+    shapes = {}
+    for b in full:
+        shapes.setdefault(" ".join(s["a"] for s in b), []).append(b)
+    limit = 25000 if th else 3000
+    take = []
+    while len(take) < limit and any(shapes.values()):
+        for k in sorted(shapes):
+            if shapes[k] and len(take) < limit:
+                take.append(shapes[k].pop())
     if not take:
         raise Infra("no behaviours exported")
+    ctx.ev.set("boundary_behaviours_exported", len(full))
     replay(ctx, spec_cfg(beh), take, "tlc_behaviours_boundary")
     nsim = 250 if th else 24
-    sim = ctx.tlc("AgentQueueMC", "AgentQueue_sim.cfg", simulate=(nsim, 61), timeout=2400,
+    sim = ctx.tlc("AgentQueueMC", "AgentQueue_sim.cfg", simulate=(nsim, 46), timeout=2400,
                   name="simulated long behaviours, real constants",
-                  constants={"QLen": 128, "FutureSlots": 3, "Spread": 120, "NShards": 2, "MaxOps": 60, "MaxEvents": 30})
+                  constants={"QLen": 128, "FutureSlots": 3, "Spread": 120, "NShards": 2, "MaxOps": 45, "MaxEvents": 30})
     ctx.require_model_ok(sim, "simulation export")
     simb = last_per_trace(sim.behaviours, rnd)
     if not simb:
